@@ -227,8 +227,14 @@ pub fn gen_expr(rng: &mut Rng, depth: u32, idbase: &mut u64) -> E {
 	}
 }
 
-fn gen_queries(rng: &mut Rng, spec: &HashMap<(u8, u32, u32), u64>, n: usize) -> Vec<Q> {
+fn leaf_coords(e: &E, out: &mut Vec<(u8, u32, u32)>) {
+	match e { E::Leaf(t) => out.extend(t.iter().map(|(c, _)| *c)), E::Zoom(_, _, i) | E::BBox(_, i) | E::Conv(_, _, _, i) => leaf_coords(i, out), E::Over(es) => es.iter().for_each(|x| leaf_coords(x, out)) }
+}
+
+fn gen_queries(rng: &mut Rng, spec: &HashMap<(u8, u32, u32), u64>, probes: &[(u8, u32, u32)], n: usize) -> Vec<Q> {
 	let mut qs = Vec::new();
+	// coordinates stored in some leaf are probed whether or not the expression keeps them (filters!)
+	for c in probes.iter().take(12) { qs.push(Q::L(c.0, c.1, c.2)); if let Ok(b) = TileBBox::new(c.0, c.1, c.2, c.1, c.2) { qs.push(Q::S(b)); } }
 	let keys: Vec<&(u8, u32, u32)> = spec.keys().collect();
 	for z in 0..=ZMAX { qs.push(Q::V(z)); }
 	for _ in 0..n {
@@ -362,12 +368,20 @@ pub fn run_into(ctx: &Ctx, focus: &str, col: &mut Collector) -> Result<()> {
 				let z = rng.range(2, ZMAX as u64) as u8;
 				E::Over((0..rng.range(2, 4)).map(|_| { idbase += 2000; gen_rect_leaf(&mut rng, idbase, z) }).collect()) }
 			"c08" => E::Over((0..rng.range(2, 4)).map(|k| if k == 0 { inner.clone() } else { gen_expr(&mut rng, depth - 1, &mut idbase) }).collect()),
+			"c09" if i % 5 == 4 => { // deep levels and zoom bounds at / beyond the last level (no geo boxes involved)
+				let zs = [0u8, 1, 29, 30, 31];
+				let tiles: Vec<Tile> = (0..rng.range(2, 8)).map(|k| { let z = *rng.pick(&zs); let m = ((1u64 << z) - 1) as u32; ((z, *rng.pick(&[0, m, m / 2]), *rng.pick(&[0, m, m / 3])), 900_000 + i as u64 * 10 + k) }).collect();
+				let bounds = [0u8, 1, 2, 29, 30, 31, 32, 33, 64, 200, 255];
+				let mut e = E::Zoom(Some(*rng.pick(&bounds)).filter(|_| rng.chance(4, 5)), Some(*rng.pick(&bounds)).filter(|_| rng.chance(3, 5)), Box::new(E::Leaf(tiles)));
+				if rng.chance(1, 2) { e = E::Zoom(Some(*rng.pick(&bounds)).filter(|_| rng.chance(4, 5)), None, Box::new(e)); }
+				e }
 			"c09" => if rng.chance(1, 2) { E::Zoom(Some(rng.range(0, 7) as u8).filter(|_| rng.chance(3, 4)), Some(rng.range(0, 7) as u8).filter(|_| rng.chance(3, 4)), Box::new(inner)) } else { E::BBox(gen_geo(&mut rng), Box::new(inner)) },
 			"c06" => E::Conv(rng.chance(2, 3), rng.chance(2, 3), if rng.chance(1, 2) { Some(gen_req(&mut rng)) } else { None }, Box::new(inner)),
 			_ => inner,
 		};
 		let spec = spec_map(&e)?;
-		let qs = gen_queries(&mut rng, &spec, nq);
+		let mut probes = Vec::new(); leaf_coords(&e, &mut probes);
+		let qs = gen_queries(&mut rng, &spec, &probes, nq);
 		run_expr(&rt, &e, &qs, &mut col.out, &mut specv, &mut stats)?;
 		*stats.entry("expressions".into()).or_insert(0) += 1;
 		*stats.entry(format!("spec_tiles_{}", match spec.len() { 0 => "0", 1..=9 => "1-9", 10..=99 => "10-99", _ => "100+" })).or_insert(0) += 1;
